@@ -43,6 +43,8 @@ CHECKS = {
          'exhaustive enumeration of line structures against a reference automaton (cross-validated with CPython tokenize) + explicit-state search over stream histories'),
  'C19': ('exploration', '4 C19', 'Every SHAPE-family grammar (with extra slice-/sum-like ?rule helpers) that passes our syntactic test for the supported class and LALR strict mode, plus a menu of multi-rule expression/list/keyword/sigil grammars; lalr and earley; every accepted input up to the bound, all through one Reconstructor per grammar in forward and reverse order: reconstruct(parse(w)) must re-parse to an equal tree.',
          'bounded exhaustive round-trip enumeration over grammars of the supported class and all their accepted inputs'),
+ 'C17': ('exploration', '4 C17', 'For 9 base grammars (expressions, underscore names, templates incl. module-internal and underscore templates, modifiers/priorities, terminals composed from terminals): every dependency-closed split into main + module x 5 import forms x variants (plain, local name clash, %override, %extend) x lalr / earley(explicit, sets) x every input up to the bound, compared with the hand-inlined grammar produced by our own renamer (documented module__name prefix for transitively imported names).',
+         'bounded exhaustive differential enumeration of (split, import form, variant, input) against hand-inlined grammars'),
 }
 NOT_YET = {}
 def main():
